@@ -3,6 +3,50 @@ import semprops
 import semstage
 
 
+# independent mismatches that LOOK alike: the same sub-pattern tokens stamped out by a macro_rules! repetition (same span), failing with
+# the same actual value.  Every one of them is an entry of its own in the rendered report.  (helper, value, failing call, the text of
+# one annotation, how many of them the report must carry)
+EQUAL_LOOKING = [
+    ("($v:expr, $($f:ident),+) => { assert_struct!($v, _ { $($f: > 5,)+ .. }) }", "R3 { a: 0, b: 0, c: 9 }, a, b, c", "got 0", 2),
+    ("($v:expr, $($f:ident),+) => { assert_struct!($v, R3 { $($f: == 7,)+ }) }", "R3 { a: 1, b: 1, c: 1 }, a, b, c", "got 1", 3),
+    ("($v:expr, $($f:ident),+) => { assert_struct!($v, _ { $($f: 1..=3,)+ .. }) }", "R3 { a: 9, b: 2, c: 9 }, a, b, c", "got 9", 2),
+    ("($v:expr, $($e:expr),+) => { assert_struct!($v, [ $(== $e),+ ]) }", "vec![0, 0, 3], 1, 1, 3", "got 0", 2),
+    ("($v:expr, $($i:tt),+) => { assert_struct!($v, ( $($i: > 5,)+ )) }", "(0, 0, 9), 0, 1, 2", "got 0", 2),
+    ("($v:expr, $($f:ident),+) => { assert_struct!($v, Some(_ { $($f: \"x\",)+ .. })) }", "Some(RS { s: \"y\".into(), t: \"y\".into() }), s, t", "got \"y\"", 2),
+]
+EQUAL_DECLS = """
+#[derive(Debug, Clone, PartialEq)] struct R3 { a: i32, b: i32, c: i32 }
+#[derive(Debug, Clone, PartialEq)] struct RS { s: String, t: String }
+"""
+
+
+def equal_looking(res):
+    import e2e
+    name = "direct:mismatches that look alike (same tokens from a macro repetition, same value) are each reported (rendered report)"
+    res.obligations.append(name)
+    progs = [e2e.PRELUDE + EQUAL_DECLS + "macro_rules! stamped { %s; }\nfn main() { std::panic::set_hook(Box::new(|_| {})); "
+             "let _plain = assert_struct::__macro_support::PlainOutputGuard::new(); run_case(\"t\", || { stamped!(%s); }); }\n" % (h, call)
+             for h, call, _, _ in EQUAL_LOOKING]
+    out = e2e.compile_many(progs, run=True, tag="c03e")
+    e2e.cleanup("c03e")
+    bad = 0
+    for (h, call, text, want), o, src in zip(EQUAL_LOOKING, out, progs):
+        if not o["compiled"]:
+            raise __import__("vlib").CheckError("an equal-looking program of C03 does not compile: " + o["stderr"][-1200:])
+        c = e2e.parse_case_lines(o.get("stdout", "")).get("t")
+        msg = (c or {}).get("msg") or ""
+        n = msg.count(text)
+        if c is None or c["verdict"] != "fail" or n != want:
+            bad += 1
+            if bad <= 2:
+                res.violation("failing-input", "`stamped!(%s)` with `%s`: %d independent mismatches with the same look (`%s`), the rendered report carries %d of them"
+                              % (call, h, want, text, n), {"equal_looking_program": src, "message": msg[:1500]})
+    res.streams["equal-looking-mismatches"] = {"programs": len(progs), "wrong": bad}
+    if not bad:
+        res.discharged.append(name)
+    return bad
+
+
 def run(res):
     cases, bad, sem_dis, na, nc = semprops.common(res, "C03")
     failing = 0
@@ -35,6 +79,7 @@ def run(res):
                         res.violation("failing-input", "the rendered message lacks the entry for %s" % node,
                                       {"case": semprops.describe(c), "message": msg[:1500]})
                     break
+    failing += equal_looking(res)
     semprops.finish(res, "C03", cases, bad, sem_dis, na, nc, failing, multi,
                     "the shared semantic corpus (see C01): mismatches are planted at several places at once (leaf beside variant mismatch, "
                     "inside map values, after field operations, failing sets beside failing comparisons); the entries pushed by the real "
@@ -44,4 +89,9 @@ def run(res):
 
 
 def replay(res, path):
+    import json
+    if json.load(open(path)).get("equal_looking_program"):
+        n = equal_looking(res)
+        print("equal-looking programs re-run:", "violation" if n else "property holds on these inputs")
+        return 1 if n else 0
     return semprops.replay_case(path)
